@@ -209,7 +209,12 @@ def core_phase(ctx, n):
     cases = [gen_case(ctx.rng.randrange(1 << 48), i, 6,
                       features=[{"core"}, {"core", "assign", "impure", "shadow"}, {"core", "match"},
                                 {"core", "match", "assign", "impure", "shadow"}, {"core", "helpers", "assign", "impure"},
-                                {"core", "helpers", "match", "assign", "impure", "shadow"}][i % 6], depth=4) for i in range(n)]
+                                {"core", "helpers", "match", "assign", "impure", "shadow"},
+                                # with aggregates: tuples, structs, arrays, indexing, loops, destructuring, paths
+                                {"core", "agg", "assign", "impure", "loops"},
+                                {"core", "agg", "structs", "helpers", "match", "assign", "impure", "shadow", "loops"},
+                                {"core", "agg", "structs", "match"},
+                                {"core", "agg", "match", "loops", "assign", "impure"}][i % 10], depth=4) for i in range(n)]
     impl = common.run_lines_guarded(common.GVH, [impl_case(c, "ssa", True) for c in cases], per_case_timeout=20.0)
     bit, _, _ = ctx.run_model([dict(model_case(c), op="bit_eval") for c in cases], timeout=3000)
     tally = {"value": 0, "panic": 0, "outside": 0}
